@@ -54,6 +54,8 @@ def run(ctx: Context) -> None:
     ctx.rule('R02.4', "face centres are produced in the same order: meshgrid/flatten row-major, ravel of the face coordinates, unpermuted face_x/face_y, or one in-order pass over polygons", floor=6)
     ctx.rule('R02.5', "the spatial index and the validity mask are built over the full polygon array in order; publishing the polygons does not compact or reorder them", floor=4)
     ctx.rule('R02.6', "the polygon at n is built from cell n's own coordinates: stored bounds are accepted only in the grid's dimension order and synthesised bounds are laid out in it; invalid polygons are located by positions in the full array (facts shared with C06 R06.3 / R06.6)", floor=20)
+    from .common import adopt_foundations as _adopt
+    _adopt(ctx, 'R02.7', ['order', 'topology'], floor=60)
     ctx.assume("numpy stack/broadcast_to/transpose/reshape(C order) semantics; shapely.polygons(indices=, out=) writes geometry k to out[indices[k]]; STRtree returns positions in its input array")
     ctx.assume("Arakawa C node arrays have one more row and column than the face grid, in the same dimension order (not checked by the code)")
 
